@@ -2480,6 +2480,20 @@ func (data *Data) newShardGroup(rpi *RetentionPolicyInfo, timestamp time.Time, e
 		// Shard group range is [start, end) so add one to the max time.
 		sgi.EndTime = time.Unix(0, models.MaxNanoTime+1)
 	}
+	// After the shard group duration of the policy was changed the window may reach over live groups
+	// that were created with the previous duration: cut it at its neighbours, live groups never overlap.
+	for i := range rpi.ShardGroups {
+		g := &rpi.ShardGroups[i]
+		if g.Deleted() || g.EngineType != engineType {
+			continue
+		}
+		if !g.EndTime.After(timestamp) && g.EndTime.After(sgi.StartTime) {
+			sgi.StartTime = g.EndTime
+		}
+		if g.StartTime.After(timestamp) && g.StartTime.Before(sgi.EndTime) {
+			sgi.EndTime = g.StartTime
+		}
+	}
 	return &sgi
 }
 
